@@ -25,7 +25,11 @@ from .values import DictView, LazyMap, Obj, SeqVal, SymList
 
 
 class LoopContract:
-    def __init__(self, invariant, modifies=(), ghosts=(), kinds=None, variant=None, name=None, fields=(), rows=None):
+    def __init__(self, invariant, modifies=(), ghosts=(), kinds=None, variant=None, name=None, fields=(), rows=None, header=None):
+        # header: source text of the loop header ("while sensor.queue", "for child in sensor.children.values()").
+        # When given, the contract only ever attaches to a loop with that header - wherever in the module the loop
+        # lives - and never to another loop that happens to have the same position after a restructuring.
+        self.header = header
         # rows: {column prefix: local name} - the loop writes that slot only in the row (object) the local refers to;
         # only that row is havoced, and "all other rows unchanged" is an obligation on the body (frame-row)
         self.rows = dict(rows or {})
@@ -85,11 +89,14 @@ def exec_while(it, node, frame):
     from .interp import BreakEx, ContinueEx, CutPath
 
     key = _loop_key(it, frame)
-    lc = it.loop_contracts.get(key)
+    lc = _lookup_contract(it, key, node)
     if lc is None:
-        # no contract: run while the condition is concrete
+        # no contract: run while the condition is concrete; a loop whose body keeps making symbolic choices is
+        # given up quickly (every choice multiplies the paths: without an invariant there is no end to it)
         n = 0
+        forking = 0
         while True:
+            d0 = it.ctx.di
             c = ops.truth(it, it.eval(node.test, frame))
             if not isinstance(c, bool):
                 c2 = z3.simplify(c)
@@ -105,9 +112,43 @@ def exec_while(it, node, frame):
             n += 1
             if n > 10000:
                 raise Unsupported("concrete while loop exceeds 10000 iterations")
-            if _run_body(it, node.body, frame) == "break":
+            r = _run_body(it, node.body, frame)
+            if it.ctx.di != d0:
+                forking += 1
+                if forking > 6:
+                    raise Unsupported(f"loop {key} has no loop contract and makes symbolic choices in every iteration")
+            if r == "break":
                 return
     return _cut_loop(it, node, frame, key, lc, kind="while")
+
+
+def loop_header(node):
+    if isinstance(node, ast.While):
+        return "while " + ast.unparse(node.test)
+    tgt = ", ".join(ast.unparse(e) for e in node.target.elts) if isinstance(node.target, ast.Tuple) else ast.unparse(node.target)
+    return f"for {tgt} in {ast.unparse(node.iter)}"
+
+
+def _lookup_contract(it, key, node=None):
+    """exact (module, qualname, ordinal), else a contract whose qualname is a pattern (fnmatch) for this one:
+    a loop that was moved into a helper of the same name keeps its contract; a contract that names its loop
+    header follows that header through the module and refuses every other loop"""
+    hdr = loop_header(node) if node is not None else None
+    lc = it.loop_contracts.get(key)
+    if lc is not None and (lc.header is None or hdr is None or lc.header == hdr):
+        return lc
+    if hdr is not None:
+        for (mod, qual, ordinal), cand in it.loop_contracts.items():
+            if mod == key[0] and cand.header == hdr:
+                return cand
+    if lc is not None:
+        return None  # a contract sits at this position, but it is about a different loop
+    import fnmatch
+
+    for (mod, qual, ordinal), cand in it.loop_contracts.items():
+        if mod == key[0] and ordinal == key[2] and any(ch in qual for ch in "*?") and fnmatch.fnmatchcase(key[1], qual):
+            return cand
+    return None
 
 
 def _havoc_locals(it, frame, names, lc):
@@ -234,7 +275,7 @@ def _cut_loop(it, node, frame, key, lc, kind, iterinfo=None):
         log_prev = it.write_log
         it.write_log = []
         cols_before = dict(it.world.cols) if it.world is not None else {}
-        kept = {nm: frame.locals.get(nm) for nm, kd in lc.kinds.items() if kd == "keep"}
+        kept = {nm: frame.locals.get(nm) for nm, kd in lc.kinds.items() if kd == "keep" and nm in frame.locals}
         try:
             r = _run_body(it, node.body, frame)
         finally:
@@ -245,7 +286,7 @@ def _cut_loop(it, node, frame, key, lc, kind, iterinfo=None):
         _check_frame_world(it, cols_before, lc, key, rowidx, oname)
         if r != "break":
             for nm, kd in lc.kinds.items():
-                if kd == "keep" and frame.locals.get(nm) is not kept.get(nm):
+                if kd == "keep" and nm in kept and frame.locals.get(nm) is not kept.get(nm):
                     raise EngineError(f"loop {key}: the contract keeps local {nm}, but the body assigns it on a path back to the loop head")
         if r == "break":
             # leaving the loop from an arbitrary iteration: execution continues after the loop
@@ -421,7 +462,7 @@ def exec_for(it, node, frame):
         itv = DictView(itv, "keys")
     if isinstance(itv, DictView) and isinstance(itv.mapref, MapRef):
         key = _loop_key(it, frame)
-        lc = it.loop_contracts.get(key)
+        lc = _lookup_contract(it, key, node)
         if lc is None:
             raise Unsupported(f"for loop over a symbolic dict without loop contract: {key}")
         di = DictIterInfo(itv)
@@ -429,7 +470,7 @@ def exec_for(it, node, frame):
         return _cut_loop(it, node, frame, key, lc, "for", di)
     if isinstance(itv, SymRange):
         key = _loop_key(it, frame)
-        lc = it.loop_contracts.get(key)
+        lc = _lookup_contract(it, key, node)
         if lc is None:
             raise Unsupported(f"for loop over a symbolic range without loop contract: {key}")
         return _cut_loop(it, node, frame, key, lc, "for", RangeIterInfo(itv))
